@@ -368,7 +368,7 @@ fn self_test(rep: &Report) {
 pub fn run(tier: Tier, seed: u64) -> i32 {
     let rep = Report::new("C11", "exploration", tier, seed);
     self_test(&rep);
-    let n = tier.pick(360, 5000);
+    let n = tier.pick(900, 9000);
     let nlarge = tier.pick(6, 60);
     let total = n + nlarge;
     let viols = par_map(total, crate::util::ncpu(), |i| {
